@@ -145,11 +145,34 @@ pub fn run(o: &Opts) -> i32 {
         }
     };
     let w1_max = if o.is_thorough() { 16 << 20 } else { 1 << 20 };
-    let w2_pad = if o.is_thorough() { 64 << 20 } else { 1 << 20 };
+    let w2_pad = if o.is_thorough() { 16 << 20 } else { 1 << 20 };
     let border_n: u32 = if o.is_thorough() { 20 } else { 12 };
     let kinds = if o.is_thorough() { 2 } else { 3 };
     let mut streams: Vec<Stream> = Vec::new();
-    streams.push(Stream::new("w1-random", o.n(1500, 60_000), move |_i, rng: &mut Rng, l: &mut Local| {
+    // the most hostile inputs first (one case), so that clamped interpreter / sanitizer runs always
+    // drive the engine through: forks up to all 31 contexts, the last-piece hash, 0..4 eliminations
+    // (odd and even numbers of active contexts) with more data afterwards, saturated contexts
+    let wh = &words;
+    streams.push(Stream::new("hostile-inputs", 1, move |_i, rng: &mut Rng, l: &mut Local| {
+        for (k, pre_len) in [0usize, 230, 420, 800, 1500, 2900].iter().enumerate() {
+            for lv in [30usize, 29] {
+                let mut d: Vec<u8> = Vec::with_capacity(pre_len + 64);
+                let mut r2 = rng.clone();
+                for _ in 0..*pre_len {
+                    d.push(r2.byte());
+                }
+                d.extend_from_slice(&wh[lv][k % wh[lv].len()]);
+                d.extend_from_slice(b"tail bytes after the top-level trigger");
+                d.extend_from_slice(&wh[lv][(k + 1) % wh[lv].len()]);
+                d.push(1);
+                check_input(l, &d, "hostile");
+                if crate::work::bytes::tiny() && *pre_len > 900 {
+                    break; // interpreter budget
+                }
+            }
+        }
+    }));
+    streams.push(Stream::new("w1-random", o.n(1500, 40_000), move |_i, rng: &mut Rng, l: &mut Local| {
         let d = bytes::gen_w1(rng, w1_max);
         check_input(l, &d, "W1");
     }));
@@ -171,7 +194,7 @@ pub fn run(o: &Opts) -> i32 {
         .grain(1),
     );
     let wref = &words;
-    streams.push(Stream::new("w2-trigger-words", o.n(3000, 120_000), move |_i, rng: &mut Rng, l: &mut Local| {
+    streams.push(Stream::new("w2-trigger-words", o.n(3000, 40_000), move |_i, rng: &mut Rng, l: &mut Local| {
         let (d, _k) = bytes::gen_w2(rng, wref, w2_pad);
         check_input(l, &d, "W2");
     }));
